@@ -195,6 +195,58 @@ func aggqRound6Facts(b *strings.Builder, t *tr) {
 				}
 				return true
 			})
+			// the other way to write it: the closer starts as the no-op one and `if <destination> != ""` replaces it
+			isNoopLit := func(e ast.Expr) bool {
+				if c, ok := e.(*ast.CallExpr); ok && len(c.Args) == 1 { // a conversion: io.Closer(stdoutCloser{})
+					e = c.Args[0]
+				}
+				cl, ok := e.(*ast.CompositeLit)
+				if !ok {
+					return false
+				}
+				id, ok := cl.Type.(*ast.Ident)
+				return ok && noop[id.Name]
+			}
+			startsNoop := false
+			ast.Inspect(fd.Body, func(n ast.Node) bool {
+				switch x := n.(type) {
+				case *ast.ValueSpec:
+					for i, nm := range x.Names {
+						if fileVar != nil && p.TypesInfo.Defs[nm] == fileVar && i < len(x.Values) && isNoopLit(x.Values[i]) {
+							startsNoop = true
+						}
+					}
+				case *ast.AssignStmt:
+					if x.Tok.String() == ":=" && len(x.Lhs) == 1 && len(x.Rhs) == 1 {
+						if id, ok := x.Lhs[0].(*ast.Ident); ok && fileVar != nil && p.TypesInfo.Defs[id] == fileVar && isNoopLit(x.Rhs[0]) {
+							startsNoop = true
+						}
+					}
+				}
+				return true
+			})
+			if startsNoop {
+				// every other assignment to it must be under `<x> != ""`
+				guarded := true
+				ast.Inspect(fd.Body, func(n ast.Node) bool {
+					if is, ok := n.(*ast.IfStmt); ok {
+						if c, ok := is.Cond.(*ast.BinaryExpr); ok && c.Op.String() == "!=" {
+							if lit, ok := c.Y.(*ast.BasicLit); ok && lit.Value == `""` {
+								return false // assignments in here are fine
+							}
+						}
+					}
+					if as, ok := n.(*ast.AssignStmt); ok && as.Tok.String() == "=" {
+						for _, l := range as.Lhs {
+							if id, ok := l.(*ast.Ident); ok && p.TypesInfo.Uses[id] == fileVar {
+								guarded = false
+							}
+						}
+					}
+					return true
+				})
+				closerNoop = guarded
+			}
 			ast.Inspect(fd.Body, func(n ast.Node) bool {
 				is, ok := n.(*ast.IfStmt)
 				if !ok {
